@@ -713,6 +713,10 @@ def regression_cases(mode):
     # uncacheable descendant: the parent must not be cached without dependency edges
     nc = {"t": "Pile", "items": [["pack", None, {"t": "LineBox", "w": T_("top"), "title": ""}], ["pack", None, {"t": "NoCacheText", "text": "0123456789012345678901234567"}]], "focus": 0}
     out.append({"mode": mode, "kind": "flow", "recipe": nc, "sizes": [[30], [12]], "ops": [["render", 0, 1], ["render", 1, 1], ["gc", 1], ["render", 0, 1], ["mut", 3, ["set_align_mode", "center"]], ["render", 0, 1], ["render", 1, 1]]})
+    # same with a decoration that declares its dependencies explicitly (set_depends) around a ListBox whose
+    # uncacheable item is visible at one size only
+    pl = {"t": "Padding", "w": {"t": "ListBox", "items": [T_("i0"), T_("i1"), T_("i2"), {"t": "NoCacheText", "text": "nc item"}], "walker": "simple", "focus": 0}, "align": "right", "width": ["relative", 100], "left": 1, "right": 1}
+    out.append({"mode": mode, "kind": "box", "recipe": pl, "sizes": [[19, 3], [29, 4]], "ops": [["render", 0, 0], ["render", 1, 1], ["mut", 5, ["set_text", "changed"]], ["render", 1, 1], ["render", 0, 0]]})
     # cache emptied by the application, old canvases die later, then a change below a re-cached ancestor
     fl = {"t": "Filler", "w": T_("one"), "valign": "top"}
     for seed in range(6):
